@@ -172,6 +172,14 @@ def replay(prop, payload):
         return any(i['layer'] == 'oracle' and not i.get('known') for i in res['issues'])
     C = Comp(dict(seed=0, tier='quick'), '')
     arr = np.array(payload['arr'], dtype=float)
+    if payload.get('bounds') == 'ndarray':
+        # bounds handed over as float arrays, the same objects used for two calls
+        lb, ub = payload['lb'], payload['ub']
+        lba, uba, arr2 = np.array(lb, dtype=float), np.array(ub, dtype=float), np.array(arr, copy=True)
+        o1 = hc.span(arr2, lba, uba)
+        o2 = hc.span(arr2, lba, uba)
+        return (not (np.array_equal(lba, np.array(lb, dtype=float)) and np.array_equal(uba, np.array(ub, dtype=float))
+                     and np.array_equal(arr2, arr))) or not np.array_equal(o1, o2, equal_nan=True)
     out = hc.span(arr, payload['lb'], payload['ub'])
     judge(C, np, hc.span, arr, payload['lb'], payload['ub'], out, payload)
     return any(not i.get('known') for i in C.issues)
